@@ -236,7 +236,10 @@ SEQ_VARIANTS = {
     "B-zero:D0": {"D0": 0.0}, "B-zero:D1": {"D1": 0.0}, "B-zero:C5": {"C5": 0.0}, "B-zero:C6": {"C6": 0.0}, "B-neg:C6": {"C6": -2e16},
     "B-zero:all-ions": {"D1": 0.0, "C5": 0.0, "C6": 0.0, "He2": 0.0}, "B-different": {"D0": 4e16, "D1": 5e17, "C5": 2e16, "C6": 7e16, "He2": 1e16},
 }
-SEQ_STEPS = ["A", "B", "A", "B", "notify", "B", "A", "replace-donor", "A", "B", "add-species", "B", "A"]
+# "A" / "B": evaluate at the point of that region; "~": with another spectral window (300-900 nm, 5 bins instead of 420-700 nm, 6 bins);
+# "provider-exchange": model.atomic_data = a provider with another free-free Gaunt factor (same rates)
+SEQ_STEPS = ["A", "B", "A", "B", "A~", "A", "B~", "notify", "B", "A", "replace-donor", "A", "B", "add-species", "B", "A~",
+             "provider-exchange", "A", "B~", "B"]
 
 
 def _seq_cases(tier):
@@ -291,8 +294,10 @@ def _run_seq(case, acc):
         pl.composition = make_state(extra)
         return pl
 
+    state = {"gaunt": "mock"}
+
     def make_model(pl):
-        prov = L["Provider"]()
+        prov = L["Provider"](gaunt=state["gaunt"])
         if kind == "exc":
             return ExcitationLine(Line(M.element("deuterium"), 0, (3, 2)), plasma=pl, atomic_data=prov)
         if kind == "rec":
@@ -320,6 +325,11 @@ def _run_seq(case, acc):
             extra.add("replace:D0")
             hist.append(st)
             continue
+        if st == "provider-exchange":
+            state["gaunt"] = "default"
+            model.atomic_data = L["Provider"](gaunt="default")
+            hist.append(st)
+            continue
         if st == "add-species":
             plasma.composition.add(species("He1", 5e15, 7e15, 40.0, 60.0))
             extra.add("add:He1")
@@ -327,17 +337,20 @@ def _run_seq(case, acc):
             continue
         acc.n += 1
         acc.transitions += 1
-        live = _observe(model, PTS[st], lo, hi, bins)
-        fresh = _observe(make_model(make_plasma(extra)), PTS[st], lo, hi, bins)
+        w = (300.0, 900.0, 5) if st.endswith("~") else (lo, hi, bins)
+        live = _observe(model, PTS[st[0]], *w)
+        fresh = _observe(make_model(make_plasma(extra)), PTS[st[0]], *w)
         hist.append(st)
         acc.nontrivial.append(("seq", kind, variant, len(hist)))
         same = (live[0] == fresh[0]) and (live[1:] == fresh[1:] if live[0] == "exc" else
                                           all(_close(a, b, 1e-12) or (a == b) for a, b in zip(live[1], fresh[1])))
         if not same:
-            after = [h for h in hist[:-1] if h not in ("A", "B")]
+            after = [h for h in hist[:-1] if h[0] not in ("A", "B")]
+            if not after and len(hist) > 1 and st.endswith("~") != hist[-2].endswith("~"):
+                after = ["another-spectral-window"]
             cause = (after[-1] if after else ("previous-point" if len(hist) > 1 else "first-evaluation"))
             acc.v("%s:sequence:after-%s:differs-from-a-fresh-model-at-the-same-point" % (name, cause),
-                  "%s, variant %s, history %s: the model evaluated at point %s" % (name, variant, hist, PTS[st]),
+                  "%s, variant %s, history %s: the model evaluated at point %s" % (name, variant, hist, PTS[st[0]]),
                   fresh[1] if fresh[0] == "ok" else list(fresh), live[1] if live[0] == "ok" else list(live))
             break
     acc.out(("seq", kind, variant, len(hist)))
